@@ -2302,6 +2302,19 @@ func (db *DB) sync(ctx context.Context, checkpointing bool, exec *syncExecutor, 
 		}
 	}
 
+	// The page data above was read from WAL offsets recorded when the page map
+	// was built. The long-running read transaction normally keeps the WAL from
+	// being restarted meanwhile, but one begun while the WAL was fully
+	// checkpointed and not reset yet (read mark 0) does not: a writer may
+	// restart the WAL under us and the offsets then hold other frames. A
+	// restart rewrites the header salts first, so a changed header means the
+	// data cannot be trusted; the next sync re-verifies and snapshots.
+	if hdr, err := readWALHeader(db.WALPath()); err != nil {
+		return result, fmt.Errorf("re-read wal header: %w", err)
+	} else if binary.BigEndian.Uint32(hdr[16:]) != rd.salt1 || binary.BigEndian.Uint32(hdr[20:]) != rd.salt2 {
+		return result, fmt.Errorf("wal restarted during sync")
+	}
+
 	// Encode final trailer to the end of the LTX file.
 	db.setSyncDiagPhase(diagPhaseCloseLTX, func(s *diagState) {
 		s.txID = txID
@@ -3030,6 +3043,16 @@ func (db *DB) snapshotReader(ctx context.Context, pos *snapshotReadPosition) (io
 
 		if err := db.writeLTXFromDB(ctx, enc, dbFile, walFile, commit, pageMap); err != nil {
 			pw.CloseWithError(fmt.Errorf("write snapshot ltx: %w", err))
+			return
+		}
+
+		// See sync(): a WAL restarted while its pages were being read makes
+		// the snapshot worthless; fail it instead of publishing it.
+		if hdr, err := readWALHeader(db.WALPath()); err != nil {
+			pw.CloseWithError(fmt.Errorf("re-read wal header: %w", err))
+			return
+		} else if len(pageMap) > 0 && (binary.BigEndian.Uint32(hdr[16:]) != rd.salt1 || binary.BigEndian.Uint32(hdr[20:]) != rd.salt2) {
+			pw.CloseWithError(fmt.Errorf("wal restarted during snapshot"))
 			return
 		}
 
